@@ -674,14 +674,16 @@ func (r *Renderer) renderText(w util.BufWriter, source []byte, node ast.Node, en
 		} else if n.SoftLineBreak() {
 			if r.EastAsianLineBreaks != EastAsianLineBreaksNone && len(value) != 0 {
 				sibling := node.NextSibling()
-				if sibling != nil && sibling.Kind() == ast.KindText {
-					if siblingText := sibling.(*ast.Text).Value(source); len(siblingText) != 0 {
-						thisLastRune := util.ToRune(value, len(value)-1)
-						siblingFirstRune, _ := utf8.DecodeRune(siblingText)
-						if r.EastAsianLineBreaks.softLineBreak(thisLastRune, siblingFirstRune) {
-							_ = w.WriteByte('\n')
-						}
+				if sibling != nil && sibling.Kind() == ast.KindText && len(sibling.(*ast.Text).Value(source)) != 0 {
+					siblingText := sibling.(*ast.Text).Value(source)
+					thisLastRune := util.ToRune(value, len(value)-1)
+					siblingFirstRune, _ := utf8.DecodeRune(siblingText)
+					if r.EastAsianLineBreaks.softLineBreak(thisLastRune, siblingFirstRune) {
+						_ = w.WriteByte('\n')
 					}
+				} else {
+					// the character after the break is unknown: keep the break
+					_ = w.WriteByte('\n')
 				}
 			} else {
 				_ = w.WriteByte('\n')
